@@ -9,9 +9,9 @@ from ..effects import nz, is_panic_entry
 
 CRATES = ("minimal_lexical", "roots")
 A1_BOUND = 1 << 62          # assumption A1: every loop / iterator yields fewer than 2^62 items
-MAX_BLOCK_STATES = 24
-MAX_EXIT_STATES = 12
-MAX_PARTS = 6
+MAX_BLOCK_STATES = 12
+MAX_EXIT_STATES = 5
+MAX_PARTS = 4
 MAX_ITERS = 60
 MAX_DEPTH = 40
 
@@ -76,6 +76,7 @@ class Ctx:
         self.callstack = []             # [(inst, span)]
         self.unmodelled = collections.Counter()
         self.cfgs = {}
+        self.use_contracts = True
         self._fnthr = {}
         self.depth = 0
         self.thresholds = self._thresholds()
@@ -179,7 +180,8 @@ class Ctx:
                     out.update((v - 1, v, v + 1))
             for b in m.get("blocks", []):
                 for s in b["s"]:
-                    if s["k"] == "assign" and s["rv"]["rv"] == "bin" and s["rv"]["op"] in ("Eq", "Ne", "Lt", "Le", "Gt", "Ge"):
+                    # equality tests cannot be recovered by narrowing: their constants are the widening thresholds
+                    if s["k"] == "assign" and s["rv"]["rv"] == "bin" and s["rv"]["op"] in ("Eq", "Ne"):
                         cv(s["rv"]["a"])
                         cv(s["rv"]["b"])
                 t = b["t"]
@@ -188,9 +190,6 @@ class Ctx:
                         v = int(v)
                         if v < (1 << 63):
                             out.update((v - 1, v, v + 1))
-                if t["k"] == "call":
-                    for a in t["args"]:
-                        cv(a)
             return out
         seen = set()
         frontier = [inst["id"]]
@@ -309,9 +308,11 @@ def fresh_of_type(ty):
 
 def write(st, key, val):
     n = len(key)
-    dead = [k for k in st.env if len(k) >= n and k[:n] == key]
-    for k in dead:
-        del st.env[k]
+    fd = st.env.f.get(key[0])
+    if fd:
+        dead = [k for k in fd if len(k) >= n and k[:n] == key]
+        for k in dead:
+            del fd[k]
     if val is None:
         return
     if isinstance(val, Agg):
@@ -319,7 +320,7 @@ def write(st, key, val):
         m = len(src)
         if src == key:
             return
-        for k, a in list(st.env.items()):
+        for k, a in list(st.env.frame(src[0]).items()):
             if len(k) >= m and k[:m] == src:
                 st.env[key + k[m:]] = a
     elif isinstance(val, Fields):
@@ -337,13 +338,13 @@ def snapshot(st, val):
     if isinstance(val, Agg):
         src = val.key
         m = len(src)
-        return Fields({k[m:]: a for k, a in st.env.items() if len(k) >= m and k[:m] == src})
+        return Fields({k[m:]: a for k, a in st.env.frame(src[0]).items() if len(k) >= m and k[:m] == src})
     return val
 
 
 def has_sub(st, key):
     n = len(key)
-    for k in st.env:
+    for k in st.env.frame(key[0]):
         if len(k) > n and k[:n] == key:
             return True
     return False
@@ -352,8 +353,11 @@ def has_sub(st, key):
 class Interp:
     def __init__(self, ctx):
         self.ctx = ctx
-        from . import summaries
+        from . import summaries, modular
+        self._static_hulls = {}
+        self._heavy = {}
         self.summ = summaries.Summaries(self)
+        self.mod = modular.Modular(self)
 
     # -- places -------------------------------------------------------------
     def lv(self, st, fr, inst, place, span=None, for_write=False):
@@ -382,6 +386,8 @@ class Interp:
             elif "f" in e:
                 if cur[0] == "key":
                     cur = ("key", cur[1] + (("f", e["f"]),))
+                elif cur[0] == "staticelem":
+                    cur = cur + (e["f"],)
                 else:
                     cur = ("unknown", False)
             elif "variant" in e:
@@ -415,6 +421,8 @@ class Interp:
             key = cur[1]
             a = st.env.get(key)
             if a is not None:
+                if a in G.obj and G.obj[a][0] == "array":
+                    return Agg(key)        # carries its ghost "initialised prefix" sub-cell
                 return a
             if has_sub(st, key):
                 return Agg(key)
@@ -435,7 +443,16 @@ class Interp:
             region = cur[1]
             return self.region_elem(region, ty)
         if k == "staticelem":
-            return self.static_elem(cur[1], ty)
+            v = self.static_elem(cur[1], ty if len(cur) == 3 else None)
+            for fi in cur[3:]:
+                if isinstance(v, Fields):
+                    sub = {p[1:]: a for p, a in v.d.items() if p and p[0] == ("f", fi)}
+                    v = sub.get(()) if list(sub) == [()] else (Fields(sub) if sub else None)
+                else:
+                    v = None
+            if v is None and ty is not None:
+                v = fresh_of_type(ty)
+            return v
         if k == "arrelem":
             return fresh_of_type(ty) if ty else None
         return fresh_of_type(ty) if ty else None
@@ -452,6 +469,28 @@ class Interp:
         return fresh_of_type(ty) if ty else None
 
     def static_elem(self, path, ty):
+        """element of an immutable static table: hull of every entry, per tuple field"""
+        h = self._static_hulls.get(path)
+        if h is None:
+            v = self.ctx.facts.consts.get(path)
+            if v is None:
+                for k, vv in self.ctx.facts.consts.items():
+                    if k.endswith("::" + path.split("::")[-1]) or path.endswith(k):
+                        v = vv
+                        break
+            h = False
+            if isinstance(v, list) and v:
+                if isinstance(v[0], str):
+                    xs = [int(x) for x in v]
+                    h = ("scalar", min(xs), max(xs))
+                elif isinstance(v[0], list) and all(isinstance(x, str) for x in v[0]):
+                    cols = list(zip(*[[int(x) for x in row] for row in v]))
+                    h = ("tuple", [(min(c), max(c)) for c in cols])
+            self._static_hulls[path] = h
+        if h and h[0] == "scalar":
+            return new_int(h[1], h[2])
+        if h and h[0] == "tuple":
+            return Fields({(("f", i),): new_int(lo, hi) for i, (lo, hi) in enumerate(h[1])})
         return fresh_of_type(ty) if ty else None
 
     def read_place(self, st, fr, inst, place, span=None):
@@ -510,12 +549,14 @@ class Interp:
         if ik is not None:
             init = st.env.get(ik)
             if write:
-                # initialised prefix grows when the write starts at or below it
+                # initialised prefix grows when the write starts at or below it; a write beyond the prefix is
+                # remembered as one pending range and merged as soon as the prefix reaches its start
+                # (shl_limbs: copy to [n, n+len) first, then zero-fill [0, n))
+                pk_s, pk_e = ik[:-1] + (("g", "pstart"),), ik[:-1] + (("g", "pend"),)
                 if init is not None and is_int(off):
-                    if st.diff_le(off, init, 0):
-                        end = self.sum_atom(st, off, cnt_atom if cnt_atom is not None else const_int(1))
-                        if end is not None:
-                            # new init = max(init, end)
+                    end = self.sum_atom(st, off, cnt_atom if cnt_atom is not None else const_int(1))
+                    if end is not None:
+                        if st.diff_le(off, init, 0):
                             if st.diff_le(init, end, 0):
                                 st.env[ik] = end
                             elif not st.diff_le(end, init, 0):
@@ -524,6 +565,22 @@ class Interp:
                                 st.env[ik] = m
                                 st.add_fact(init, m, 0)
                                 st.add_fact(end, m, 0)
+                            ps, pe = st.env.get(pk_s), st.env.get(pk_e)
+                            cur = st.env.get(ik)
+                            if is_int(ps) and is_int(pe) and st.diff_le(ps, cur, 0):
+                                if st.diff_le(cur, pe, 0):
+                                    st.env[ik] = pe
+                                elif not st.diff_le(pe, cur, 0):
+                                    ic, ip = st.get_iv(cur), st.get_iv(pe)
+                                    m2 = new_int(max(ic[0], ip[0]), max(ic[1], ip[1]))
+                                    st.env[ik] = m2
+                                    st.add_fact(cur, m2, 0)
+                                    st.add_fact(pe, m2, 0)
+                                st.env.pop(pk_s, None)
+                                st.env.pop(pk_e, None)
+                        elif st.env.get(pk_s) is None:
+                            st.env[pk_s] = off
+                            st.env[pk_e] = end
             else:
                 okr = False
                 if init is not None and is_int(off):
@@ -551,6 +608,14 @@ class Interp:
         if r is None:
             r = new_int(ia[0] + ib[0], ia[1] + ib[1], ("add", a, b))
             G.cons[k] = r
+        if st.facts:
+            # x + i with (i - (L - x) <= c)  gives  (x + i) - L <= c
+            for (p, q), c in list(st.facts.items()):
+                if p in (a, b):
+                    other = b if p == a else a
+                    dq = G.df.get(q)
+                    if dq and dq[0] == "sub" and dq[2] == other:
+                        st.add_fact(r, dq[1], c)
         return r
 
     def sum_hi(self, st, a, b):
@@ -579,7 +644,7 @@ class Interp:
         return r
 
     # -- operands / rvalues -------------------------------------------------------
-    def const_val(self, c):
+    def const_val(self, c, st=None):
         ty = c["ty"]
         if "v" in c:
             k = ty.get("k")
@@ -595,12 +660,12 @@ class Interp:
             if v is not None:
                 d[("discr",)] = const_int(self.discr_value(ty, v))
                 for i, fv in enumerate(c.get("fields", [])):
-                    a = self.decoded(fv)
+                    a = self.decoded(fv, None, st)
                     if a is not None:
                         d[(("v", v), ("f", i))] = a
             return Fields(d)
         if "val" in c:
-            return self.decoded(c["val"], ty)
+            return self.decoded(c["val"], ty, st)
         if "fn" in c or "closure" in c or "zst" in c:
             return None
         return fresh_of_type(ty)
@@ -611,7 +676,7 @@ class Interp:
             return variant - 1
         return variant
 
-    def decoded(self, v, ty=None):
+    def decoded(self, v, ty=None, st=None):
         """decoded constant (driver's typed decoder) -> value"""
         if isinstance(v, str):
             try:
@@ -626,9 +691,15 @@ class Interp:
                 tt = (ty or {}).get("to", {})
                 if isinstance(inner, list) and tt.get("k") == "array":
                     return new_ptr(("loc_const_array", self.const_region(inner, tt)))
-                a = self.decoded(inner, tt)
+                a = self.decoded(inner, tt, st)
                 if isinstance(a, int):
                     return new_ptr(("val", a))
+                if isinstance(a, Fields) and st is not None:
+                    # reference to a constant aggregate: materialise it once in the constants frame (frame 0)
+                    key = (0, "const:" + str(abs(hash(repr(inner))) % (10 ** 12)))
+                    if not has_sub(st, key):
+                        write(st, key, a)
+                    return new_ptr(("loc", key))
                 return new_top()
             if "slice" in v and isinstance(v["slice"], list):
                 reg = self.const_region(v["slice"], (ty or {}).get("to", {}))
@@ -641,7 +712,7 @@ class Interp:
             d = {}
             # struct field order = declaration order = field index order
             for i, (name, fv) in enumerate(v.items()):
-                a = self.decoded(fv)
+                a = self.decoded(fv, None, st)
                 if isinstance(a, Fields):
                     for p, x in a.d.items():
                         d[(("f", i),) + p] = x
@@ -669,7 +740,7 @@ class Interp:
         if "move" in o:
             return self.read_place(st, fr, inst, o["move"], span)
         if "const" in o:
-            return self.const_val(o["const"])
+            return self.const_val(o["const"], st)
         return None
 
     def operand_ty(self, o):
@@ -704,6 +775,20 @@ class Interp:
         if op in ("Eq", "Ne", "Lt", "Le", "Gt", "Ge"):
             return self.cmp(st, op, a, b)
         tr = trange(ty)
+        if op in ("Add", "Sub", "Mul") and inst is not None and inst["krate"] in CRATES and self.ctx.mode == "rel":
+            # release MIR carries no overflow Assert: a wrapping `+ - *` written without wrapping_* is an obligation of its own
+            if op == "Add":
+                l_, h_ = A[0] + B[0], A[1] + B[1]
+            elif op == "Sub":
+                l_, h_ = A[0] - B[1], A[1] - B[0]
+                if st.facts:
+                    l_ = max(l_, -st.best_diff(b, a))
+                    h_ = min(h_, st.best_diff(a, b))
+            else:
+                c_ = [A[0] * B[0], A[0] * B[1], A[1] * B[0], A[1] * B[1]]
+                l_, h_ = min(c_), max(c_)
+            if tr is not None:
+                self.ctx.oblige("arith-no-wrap:" + op, tr[0] <= l_ and h_ <= tr[1], inst, span, "l=%s r=%s" % (A, B))
         if op in ("Add", "AddUnchecked"):
             (lo, hi), exact = self.wrap_iv(ty, A[0] + B[0], A[1] + B[1])
             if exact:
@@ -712,7 +797,11 @@ class Interp:
                 return s
             return new_int(lo, hi)
         if op in ("Sub", "SubUnchecked"):
-            (lo, hi), exact = self.wrap_iv(ty, A[0] - B[1], A[1] - B[0])
+            l0, h0 = A[0] - B[1], A[1] - B[0]
+            if st.facts:
+                l0 = max(l0, -st.best_diff(b, a))
+                h0 = min(h0, st.best_diff(a, b))
+            (lo, hi), exact = self.wrap_iv(ty, l0, h0)
             if exact:
                 return self.diff_atom(st, a, b, lo, hi)
             return new_int(lo, hi)
@@ -728,20 +817,25 @@ class Interp:
                 return r
             return new_int(lo, hi)
         if op == "Div":
+            if B[0] > 0 and B[0] == B[1]:
+                k = ("divc", a, B[0])
+                r = G.cons.get(k)
+                if r is None:
+                    r = G.cons[k] = new_int(tr[0], tr[1], ("divc", a, B[0]))
+                return r
             if B[0] > 0 and A[0] >= 0:
-                if B[0] == B[1]:
-                    k = ("divc", a, B[0])
-                    r = G.cons.get(k)
-                    if r is None:
-                        r = G.cons[k] = new_int(G.base[a][0] // B[0] if G.base[a][0] >= 0 else tr[0], G.base[a][1] // B[0], ("divc", a, B[0]))
-                    st.set_iv(r, A[0] // B[0], A[1] // B[0])
-                    return r
                 return new_int(A[0] // B[1], A[1] // B[0])
             if B[0] > 0:
                 m = max(abs(A[0]), abs(A[1]))
                 return new_int(-m, m)
             return new_int(*tr)
         if op == "Rem":
+            if B[0] > 0 and B[0] == B[1]:
+                k = ("remc", a, B[0])
+                r = G.cons.get(k)
+                if r is None:
+                    r = G.cons[k] = new_int(-(B[0] - 1) if tr[0] < 0 else 0, B[0] - 1, ("remc", a, B[0]))
+                return r
             if B[0] > 0 and A[0] >= 0:
                 return new_int(0, min(A[1], B[1] - 1))
             if B[0] > 0:
@@ -759,6 +853,8 @@ class Interp:
                 return r
             if A[0] >= 0 and B[0] >= 0:
                 hi = min(A[1], B[1])
+                if B[0] == B[1] and B[0] > 0 and B[0] & (B[0] - 1) == 0 and A[0] >= B[0] and A[1] < 2 * B[0]:
+                    return const_int(B[0])      # the masked bit is known to be set and nothing above it exists
                 if B[0] == B[1]:
                     k = ("andc", a, B[0])
                     r = G.cons.get(k)
@@ -813,6 +909,20 @@ class Interp:
                         st.set_iv(r, lo, hi)
                         return r
                     return new_int(lo, hi)
+                # w << ((w >> (bits-1)) ^ 1): shifts by one exactly when the top bit is clear
+                db = G.df.get(b)
+                if db and db[0] == "xor1" and not ty["signed"]:
+                    ds = G.df.get(db[1])
+                    if ds and ds[0] == "shr_c" and ds[1] == a and ds[2] == bits - 1:
+                        top = 1 << (bits - 1)
+                        lo_set = max(A[0], top)                 # branch: top bit set, shift 0
+                        lo_clr = 2 * A[0]                       # branch: top bit clear, shift 1, value < 2^(bits-1)
+                        cands = []
+                        if A[1] >= top:
+                            cands.append(lo_set)
+                        if A[0] < top:
+                            cands.append(min(lo_clr, tr[1]))
+                        return new_int(min(cands) if cands else 0, tr[1])
                 # normalising shift: x << clz(x) has its top bit set (x != 0)
                 db = G.df.get(b)
                 if db and db[0] == "clz" and db[1] == a and A[0] >= 1 and not ty["signed"]:
@@ -830,7 +940,9 @@ class Interp:
                     return r
                 return new_int(A[0] >> B[1], A[1] >> B[0])
             if B[0] >= 0 and B[1] < bits:
-                return new_int(min(A[0], A[0] >> B[1], 0 if A[0] >= 0 else -1), max(A[1] >> B[0], 0 if A[1] >= 0 else -1))
+                # arithmetic shift = floor division by a power of two (monotone in the operand)
+                c = [A[0] >> B[0], A[0] >> B[1], A[1] >> B[0], A[1] >> B[1]]
+                return new_int(min(c), max(c))
             return new_int(*tr)
         return new_int(*tr) if tr else new_top()
 
@@ -1090,6 +1202,9 @@ class Interp:
             lo, hi = A[0] + B[0], A[1] + B[1]
         elif op == "Sub":
             lo, hi = A[0] - B[1], A[1] - B[0]
+            if st.facts:
+                lo = max(lo, -st.best_diff(b, a))
+                hi = min(hi, st.best_diff(a, b))
         else:
             c = [A[0] * B[0], A[0] * B[1], A[1] * B[0], A[1] * B[1]]
             lo, hi = min(c), max(c)
@@ -1099,7 +1214,7 @@ class Interp:
         if hi < tr[0] or lo > tr[1]:
             return Fields({(("f", 0),): new_int(*tr), (("f", 1),): const_int(1)})
         ovf = new_int(0, 1, ("ovf", op, a, b, vty["bits"], vty["signed"]))
-        return Fields({(("f", 0),): new_int(tr[0], tr[1], ("wrapped", op, a, b)), (("f", 1),): ovf})
+        return Fields({(("f", 0),): new_int(tr[0], tr[1], ("wrapped", op, a, b, ovf)), (("f", 1),): ovf})
 
     def exact_after_no_overflow(self, st, op, a, b, vty):
         """value of `a op b` knowing that it did not overflow"""
@@ -1184,9 +1299,7 @@ class Interp:
         """disjuncts are kept apart by: boolean locals, enum discriminants, iterator flags (start / exhausted)"""
         items = []
         locs = inst["locals"] if inst is not None else None
-        for key, a in st.env.items():
-            if key[0] != fr:
-                continue
+        for key, a in st.env.frame(fr).items():
             if type(a) is int and a in G.base:
                 if key[-1] == "discr" or (locs is not None and len(key) == 2 and locs[key[1]].get("k") == "bool"):
                     r = st.raw_iv(a)
@@ -1447,6 +1560,8 @@ class Interp:
                 out.extend((t["t"], s2) for s2 in self.do_drop(s, fr, inst, t))
             return out
         if k == "call":
+            if len(states) > 2 and self.is_heavy(t.get("callee")):
+                states = self.reduce_states(states, fr, 2, inst)
             for s in states:
                 for s2 in self.do_call(s, fr, inst, t):
                     if t["t"] is not None:
@@ -1459,6 +1574,36 @@ class Interp:
             return []
         self.ctx.unmodelled["terminator " + k] += 1
         return []
+
+    def is_heavy(self, cid):
+        """callee (transitively, depth 3) contains loops and more than 150 blocks: analyse it for few disjuncts only"""
+        if cid is None:
+            return False
+        h = self._heavy.get(cid)
+        if h is not None:
+            return h
+        seen = set()
+        frontier = [cid]
+        blocks = 0
+        loops = False
+        for _ in range(4):
+            nxt = []
+            for i in frontier:
+                m = self.ctx.mono.get(i)
+                if m is None or i in seen or "blocks" not in m:
+                    continue
+                seen.add(i)
+                if m["krate"] not in CRATES:
+                    continue
+                blocks += len(m["blocks"])
+                if self.ctx.cfg(m).heads:
+                    loops = True
+                for b in m["blocks"]:
+                    if b["t"]["k"] == "call" and b["t"].get("callee") is not None:
+                        nxt.append(b["t"]["callee"])
+            frontier = nxt
+        h = self._heavy[cid] = loops and blocks > 150
+        return h
 
     def do_switch(self, st, fr, inst, t):
         d = self.operand(st, fr, inst, t["d"], t.get("span"))
@@ -1588,7 +1733,12 @@ class Interp:
             return []
         ctx.callstack.append((inst, span))
         try:
-            res = self.summ.apply(st, fr, inst, t, callee, args)
+            res = None
+            c = self.mod.contract(callee) if ctx.use_contracts else None
+            if c is not None:
+                res = self.mod.apply(st, fr, inst, t, callee, args, c)
+            if res is None:
+                res = self.summ.apply(st, fr, inst, t, callee, args)
             if res is None:
                 if "blocks" in callee and ctx.depth < MAX_DEPTH:
                     res = self.inline(st, callee, args, t)
@@ -1642,28 +1792,74 @@ class Interp:
         out = []
         for s2, rv in exits:
             # drop callee frame
-            for k in [k for k in s2.env if k[0] == nfr]:
-                del s2.env[k]
-            for k in [k for k in s2.ghost if len(k) > 1 and k[1] == nfr]:
-                del s2.ghost[k]
+            s2.env.drop_frame(nfr)
+            if s2.ghost:
+                for k in [k for k in s2.ghost if len(k) > 1 and k[1] == nfr]:
+                    del s2.ghost[k]
             out.append((s2, rv))
         if len(out) > MAX_EXIT_STATES:
             out = self.reduce_exits(out, MAX_EXIT_STATES)
         return out
 
     def reduce_exits(self, exits, limit):
-        """merge exit states whose return values agree on discriminants / booleans"""
+        """merge exit states: first those whose return values have identical abstract signatures, then the
+        closest ones, until at most `limit` remain (keeps e.g. zero / infinity / declined results apart)"""
         tmpfr = next(G.frames)
-        sts = []
+        sigs = []
         for s, rv in exits:
             write(s, (tmpfr, 0), rv)
-            sts.append(s)
-        red = self.reduce_states(sts, tmpfr, limit)
+            sig = []
+            for k, a in sorted(s.env.frame(tmpfr).items(), key=repr):
+                if is_int(a):
+                    sig.append((k[2:], s.get_iv(a)))
+                elif a in G.obj and G.obj[a][0] == "iter":
+                    sig.append((k[2:], self.summ.iter_flags(s, G.obj[a])))
+            sigs.append(tuple(sig))
+        groups = {}
+        for (s, _rv), sig in zip(exits, sigs):
+            if sig in groups:
+                groups[sig] = join_states(groups[sig], s)
+            else:
+                groups[sig] = s
+        items = sorted(groups.items(), key=lambda kv: repr(kv[0]))
+
+        def dist(x, y):
+            dx, dy = dict(x), dict(y)
+            d = 0
+            for k in set(dx) | set(dy):
+                u, v = dx.get(k), dy.get(k)
+                if u is None or v is None:
+                    d += 4
+                elif u != v:
+                    # flag-like differences (two different values out of {0, 1}) keep states apart as long as possible
+                    su = isinstance(u, tuple) and len(u) == 2 and u[0] == u[1] and u[0] in (0, 1)
+                    sv = isinstance(v, tuple) and len(v) == 2 and v[0] == v[1] and v[0] in (0, 1)
+                    if su and sv:
+                        d += 1000
+                    elif isinstance(u, tuple) and isinstance(v, tuple) and len(u) == 2 and len(v) == 2 and type(u[0]) is int and type(v[0]) is int and (u[1] < v[0] or v[1] < u[0]):
+                        d += 5        # disjoint ranges
+                    else:
+                        d += 1
+            return d
+        while len(items) > limit:
+            best = None
+            for i in range(len(items)):
+                for j in range(i + 1, len(items)):
+                    dd = dist(items[i][0], items[j][0])
+                    if best is None or dd < best[0]:
+                        best = (dd, i, j)
+            _, i, j = best
+            js = join_states(items[i][1], items[j][1])
+            sig = []
+            for k, a in sorted(js.env.frame(tmpfr).items(), key=repr):
+                if is_int(a):
+                    sig.append((k[2:], js.get_iv(a)))
+            items = [it for n, it in enumerate(items) if n not in (i, j)] + [(tuple(sig), js)]
+            self.ctx.notes["exit-state merges"] += 1
         out = []
-        for s in red:
+        for _sig, s in items:
             rv = self.load_lv(s, ("key", (tmpfr, 0)), None)
             rv = snapshot(s, rv)
-            for k in [k for k in s.env if k[0] == tmpfr]:
-                del s.env[k]
+            s.env.drop_frame(tmpfr)
             out.append((s, rv))
         return out
